@@ -735,7 +735,9 @@ impl<T> ValVec32<T> {
     /// ```
     #[inline]
     pub fn as_slice(&self) -> &[T] {
-        if self.len == 0 || mem::size_of::<T>() == 0 {
+        // Zero-sized elements occupy no memory: the dangling (aligned, non-null) pointer is a
+        // valid base for a slice of them, so they take the same path as every other type.
+        if self.len == 0 {
             return &[];
         }
         // SAFETY: We have len valid elements starting from ptr
@@ -745,7 +747,7 @@ impl<T> ValVec32<T> {
     /// Returns a mutable slice containing all elements
     #[inline]
     pub fn as_mut_slice(&mut self) -> &mut [T] {
-        if self.len == 0 || mem::size_of::<T>() == 0 {
+        if self.len == 0 {
             return &mut [];
         }
         // SAFETY: We have len valid elements starting from ptr
